@@ -34,6 +34,8 @@ import (
 	"sync"
 	"time"
 
+	"github.com/google/uuid"
+
 	"github.com/zitadel/saml/pkg/provider"
 	"github.com/zitadel/saml/pkg/provider/key"
 )
@@ -141,7 +143,9 @@ type c15Req struct {
 	HTTP    HTTPReq
 }
 
-func c15Hosts() []string { return []string{"idp-a.example.com", "idp-b.example.org:8443", "idp-c.example.net"} }
+func c15Hosts() []string {
+	return []string{"idp-a.example.com", "idp-b.example.org:8443", "idp-c.example.net"}
+}
 
 func issuerFor(host string) string { return "https://" + host + "/saml" }
 
@@ -798,8 +802,40 @@ func unknownIssuerSSO(host, m string) c15Req {
 	return c15Req{Kind: "sso", Host: host, Marker: m, Variant: "unknown-issuer", HTTP: HTTPReq{Method: "GET", Path: "/SSO", Host: host, Query: q.Encode()}}
 }
 
+// c15UUID compares the model's rendering of NewID with google/uuid on random values and checks the shape of real NewID() values
+func c15UUID(c *Ctx) {
+	b := &batch{c: c, site: "lib uuid"}
+	n := 2000
+	if c.thorough() {
+		n = 50000
+	}
+	for i := 0; i < n; i++ {
+		u := uuid.New()
+		if i < 4 {
+			// corner values
+			for j := range u {
+				u[j] = []byte{0x00, 0xff, 0x0a, 0xa0}[i]
+			}
+		}
+		raw := append([]byte{}, u[:]...)
+		b.add("lib uuid "+tokBytes(raw), tokStr("_"+u.String())+" 1", func() map[string]interface{} { return map[string]interface{}{"bytes": fmt.Sprintf("%x", raw)} })
+		c.rep.Evaluations++
+	}
+	b.flush()
+	seen := map[string]bool{}
+	for i := 0; i < n; i++ {
+		id := provider.NewID()
+		if !c15IDRe.MatchString(id) || seen[id] {
+			c.issue(Issue{Kind: "violation", What: "NewID() returned a value that is not '_' + canonical UUID, or repeated one: " + id, Site: "NewID", Class: "id-shape"})
+			break
+		}
+		seen[id] = true
+	}
+}
+
 func runC15(c *Ctx) {
 	c15InitKeys()
+	c15UUID(c)
 	c.rep.Rule = "(a) history differential: random histories of requests on all endpoints (3 Host headers, 2 service providers, signed / unsigned / replayed-with-swapped-RelayState SSO requests, callbacks for completed and pending records, attribute queries, logout, metadata, certificate) interleaved with storage changes (key rotation, transient key fault, re-registration of an application under another entity ID, completion, user change) on ONE long-lived provider, each request also served by a world freshly built from the same data - summaries must agree; (b) N concurrent clients (N = 2, 16, 64; thorough also 256) each with its own session, service provider, Host and user, all endpoints mixed, with and without clients that stall inside Write: reply = reply alone, no foreign marker, all IDs distinct '_'+UUID. Non-trivial = request served; distinct = (generator, request kind / variant). Built with -race in the check: any race report fails it."
 	c15Reuse(c, 1)
 	ns := []int{2, 16, 64}
